@@ -1,38 +1,40 @@
 import GqlModel.Syntax.Print
 /-
-  `L s ts` : `ts` is a sentence of symbol `s` of the GraphQL grammar (some canonical form exists).
-  Combinators for building derivations of printed trees.
+  `L s ts` : `ts` is a sentence of symbol `s` of the GraphQL grammar AND is its own canonical
+  form (`Derives gql s ts ts`).  Combinators for building such derivations of printed trees.
 -/
 namespace Gql.Grammar
 open Gql Gql.Lexer Gql.Print
 
-def L (s : Sym NT) (ts : List Tok) : Prop := ∃ out, Derives gql s ts out
+def L (s : Sym NT) (ts : List Tok) : Prop := Derives gql s ts ts
 
 namespace L
 
-theorem tok {p : Tok → Bool} {t : Tok} (h : p t = true) : L (.tok p) [t] := ⟨_, .tok h⟩
-theorem nt {n : NT} {ts : List Tok} (h : L (gqlRules n) ts) : L (.nt n) ts := by
-  obtain ⟨o, d⟩ := h; exact ⟨o, .nt d⟩
-theorem eps : L .eps [] := ⟨_, .eps⟩
-theorem seq {a b : Sym NT} {t1 t2 : List Tok} (h1 : L a t1) (h2 : L b t2) : L (.seq a b) (t1 ++ t2) := by
-  obtain ⟨o1, d1⟩ := h1; obtain ⟨o2, d2⟩ := h2; exact ⟨_, .seq d1 d2⟩
+theorem tok {p : Tok → Bool} {t : Tok} (h : p t = true) : L (.tok p) [t] := Derives.tok h
+theorem nt {n : NT} {ts : List Tok} (h : L (gqlRules n) ts) : L (.nt n) ts := Derives.nt h
+theorem eps : L .eps [] := Derives.eps
+theorem seq {a b : Sym NT} {t1 t2 : List Tok} (h1 : L a t1) (h2 : L b t2) : L (.seq a b) (t1 ++ t2) :=
+  Derives.seq h1 h2
 theorem cons {a b : Sym NT} {t : Tok} {ts : List Tok} (h1 : L a [t]) (h2 : L b ts) : L (.seq a b) (t :: ts) := by
   simpa using seq h1 h2
-theorem altL {a b : Sym NT} {ts : List Tok} (h : L a ts) : L (.alt a b) ts := by
-  obtain ⟨o, d⟩ := h; exact ⟨o, .altL d⟩
-theorem altR {a b : Sym NT} {ts : List Tok} (h : L b ts) : L (.alt a b) ts := by
-  obtain ⟨o, d⟩ := h; exact ⟨o, .altR d⟩
-theorem optNone {a : Sym NT} : L (.opt a) [] := ⟨_, .optNone⟩
-theorem optSome {a : Sym NT} {ts : List Tok} (h : L a ts) : L (.opt a) ts := by
-  obtain ⟨o, d⟩ := h; exact ⟨o, .optSome d⟩
-theorem starNil {a : Sym NT} : L (.star a) [] := ⟨_, .starNil⟩
-theorem starCons {a : Sym NT} {t1 t2 : List Tok} (h1 : L a t1) (h2 : L (.star a) t2) : L (.star a) (t1 ++ t2) := by
-  obtain ⟨o1, d1⟩ := h1; obtain ⟨o2, d2⟩ := h2; exact ⟨_, .starCons d1 d2⟩
-theorem plus {a : Sym NT} {t1 t2 : List Tok} (h1 : L a t1) (h2 : L (.star a) t2) : L (.plus a) (t1 ++ t2) := by
-  obtain ⟨o1, d1⟩ := h1; obtain ⟨o2, d2⟩ := h2; exact ⟨_, .plus d1 d2⟩
-theorem canon {f : List Tok → List Tok} {a : Sym NT} {ts : List Tok} (h : L a ts) : L (.canon f a) ts := by
-  obtain ⟨o, d⟩ := h; exact ⟨_, .canon d⟩
-theorem noise {a : Sym NT} {ts : List Tok} (h : L a ts) : L (Grammar.noise a) ts := canon h
+theorem altL {a b : Sym NT} {ts : List Tok} (h : L a ts) : L (.alt a b) ts := Derives.altL h
+theorem altR {a b : Sym NT} {ts : List Tok} (h : L b ts) : L (.alt a b) ts := Derives.altR h
+theorem optNone {a : Sym NT} : L (.opt a) [] := Derives.optNone
+theorem optSome {a : Sym NT} {ts : List Tok} (h : L a ts) : L (.opt a) ts := Derives.optSome h
+theorem starNil {a : Sym NT} : L (.star a) [] := Derives.starNil
+theorem starCons {a : Sym NT} {t1 t2 : List Tok} (h1 : L a t1) (h2 : L (.star a) t2) : L (.star a) (t1 ++ t2) :=
+  Derives.starCons h1 h2
+theorem plus {a : Sym NT} {t1 t2 : List Tok} (h1 : L a t1) (h2 : L (.star a) t2) : L (.plus a) (t1 ++ t2) :=
+  Derives.plus h1 h2
+/-- a `canon` node keeps the sentence canonical when its rewriting leaves it unchanged -/
+theorem canon {f : List Tok → List Tok} {a : Sym NT} {ts : List Tok} (h : L a ts) (hf : f ts = ts) :
+    L (.canon f a) ts := by
+  have := Derives.canon (f := f) h
+  rw [hf] at this
+  exact this
+
+/-- a sentence in the sense of `L` is derivable -/
+theorem derivable {n : NT} {ts : List Tok} (h : L (.nt n) ts) : Derivable gql n ts := ⟨ts, h⟩
 
 /-- `x*` over the items of a list -/
 theorem star_flatMap {α : Type} {a : Sym NT} {f : α → List Tok} :
@@ -78,7 +80,9 @@ theorem skipOpt {a b : Sym NT} {ts : List Tok} (h : L b ts) : L (.seq (.opt a) b
 
 /-- `noise(a?) rest` where the optional noise is absent -/
 theorem skipNoise {a b : Sym NT} {ts : List Tok} (h : L b ts) : L (.seq (Grammar.noise (.opt a)) b) ts := by
-  simpa using seq (noise (optNone (a := a))) h
+  have := seq (canon (f := fun _ => []) (optNone (a := a)) rfl) h
+  rw [List.nil_append] at this
+  exact this
 
 end L
 end Gql.Grammar
